@@ -417,5 +417,5 @@ def run(ctx):
     _g3 = []
     _cases = {("K3", "hashing::sha2::impl256::sse41::digest_block"), ("K4", "hashing::sha2::impl256::avx::digest_block")}
     ctx.guard("compress-eq", "sha256-simd", lambda: _g3.append(_sha2eq.check_sha256(ctx, {"K3": 1, "K4": 1}, cases=_cases)))
-    ctx.check(_g3 == [3], "floor", "compress-eq", "3 SIMD SHA-256 runs (4 and 4+1 blocks SSE4.1, 8 blocks AVX) equal the FIPS 180-4 compression", "only %s SIMD SHA-256 comparisons ran" % _g3, key="floor:compress-eq")
+    ctx.check(_g3 == [4], "floor", "compress-eq", "3 SIMD SHA-256 runs (4 and 4+1 blocks SSE4.1, 8 blocks AVX) equal the FIPS 180-4 compression", "only %s SIMD SHA-256 comparisons ran" % _g3, key="floor:compress-eq")
     ctx.not_decided += ["ROMix / BlockMix data flow and all derived key values", "the digests under HMAC (C01)"]
